@@ -18,7 +18,7 @@ from vlib import cli, core
 
 META = {
     "level": "proof",
-    "technique": "Coq theorem for every tree, walk order and option vector on a Gallina model of collect_items/create_entry/apply_metadata and run_extract_archive_reader/extract_entry over an abstract file system, composed with the C01 pipeline theorems for the container in between; model tied to the code by differential execution of the real `pna create` / `pna extract` on generated trees and option vectors Composed with C04 (Props/C02_split.v): create --split then extract of the part set, for every max for which the split succeeds. Extraction with --overwrite into an older extraction of the same or another tree, and without --overwrite (Props/C02_overlay.v).",
+    "technique": "Coq theorem for every tree, walk order and option vector on a Gallina model of collect_items/create_entry/apply_metadata and run_extract_archive_reader/extract_entry over an abstract file system, composed with the C01 pipeline theorems for the container in between; model tied to the code by differential execution of the real `pna create` / `pna extract` on generated trees and option vectors Composed with C04 (Props/C02_split.v): create --split then extract of the part set, for every max for which the split succeeds. Extraction with --overwrite into an older extraction of the same or another tree, and without --overwrite (Props/C02_overlay.v). Implementation-side oracles where the model has no notion: extraction as an unprivileged user (modes), a symbolic link given as the tree argument.",
     "level_text": "Proved in Coq (closed, no axioms) for EVERY tree of files, directories and symbolic links, every walk order and every option vector on both sides (C02_create_extract): extraction of what `create` collected into an empty directory exits 0 and the tree read back equals `expected` (defined from the tree and the options only): same paths and kinds, contents exact, link targets exact up to EntryReference normalisation (dangling links and links to directories stay links), file mode / mtime / xattrs exactly when kept on both sides, directory entries only with --keep-dir, implicit parents as plain directories, nothing else; create emits no hard links. Premises (decidable, each shown needed or satisfiable in the kernel): the repaired extractor (the pre-C09 code chmods through an extracted link: C02_create_extract_unguarded_refuted), a well-formed tree (Normal components, distinct non-empty paths, only directories have children, attribute tables, non-empty UTF-8 link targets), an order that lists the tree's paths and — only with --keep-dir without --overwrite — parents first (C02_parents_first_needed). The container is no longer a hypothesis: C02_transport_lossless / C02_create_archive_extract(_real) / C02_create_solid_archive_extract compose the theorem with C01 for every codec, cipher, mode, per-entry cipher context, write slicing and read-buffer policy; with the AES-256/Camellia-256 models the remaining premises are the compressor and KDF laws and the format's ranges (wf_job). Carried and compared: name, kind, content/target, mode, mtime, xattrs; cTIM, aTIM and owner travel in the container but are not observed by the file-system model. Partial: --split rests on C04/C14, extraction into a non-empty directory is C20; the tie of the model to the binaries is the differential runs: real `pna create` / `pna extract` (file, --split, stdio pipe, stdio -f; every codec, cipher, KDF, solid; keep flags on either side) on generated trees, the extracted tree compared with the source tree (implementation-side oracle) and with the model's prediction (60 / 2 000 histories). Composed with C04 (Props/C02_split.v): for every max for which the split succeeds, the part set written by create --split (and --solid --split) is read by both part-chaining readers to exactly create_from_tree and extracts to the expected tree.",
     "level_note": "Trusted: Coq kernel; extraction and driver (sample re-evaluated in the kernel); Model/Fs.v as a description of the std::fs calls (no permission checks, no ownership); the compressor and KDF laws (premises, checked per case in C01's runs). Outside: kernel file system semantics, the `ignore` walker (its order is an oracle of the theorem; read back from the archive in the runs), xattr support of the sandbox file system, names that are not UTF-8, --keep-acl. Directory / symlink timestamps are stored but never restored by the tool and not checked.",
 }
